@@ -41,6 +41,8 @@ FIRST = {
     "r8_c14_a1_unreachable_warning_to_stderr": "MISSED (no fault on the process's stdout/stderr: a failing write to fd 2 was never simulated)",
     "r8_c03_a1_first_bitset_index_mod_64": "MISSED (no grammar with more than 64 terminals; the widest had 36)",
     "r8_c03_b1_natural_order_leading_zero_ties": "MISSED (no two names differing only in leading zeros of a digit run)",
+    "r9_c14_a1_last_result_memo_layout_normalised_key": "MISSED (sibling texts always differed in a token; no two texts in the pool were equal up to layout)",
+    "r9_c03_b1_action_cell_cache_key_8bit": "caught, by the `stretch_rules` pass added while the round ran (before it no grammar had 100 states, let alone 256)",
     "r4_c03_a2_memoised_item_closures_partial_on_cycles": "MISSED (indirect left recursion only through 2-3 nonterminals, and never a cycle member used outside the cycle with the same follower terminal as inside)",
 }
 
